@@ -55,6 +55,9 @@ var errInjected = errors.New("injected send failure")
 
 func c14Run(p c14Params) func() {
 	return func() {
+		if p.onlyLost && len(p.losts) < 1000 {
+			defer logChoice()()
+		}
 		sock := fakesock.New("udp")
 		sock.LogHandoff = true
 		r, _ := knx.NewRouterOnSocket(sock, knx.RouterConfig{RetainCount: p.retain, PostSendPauseDuration: mc.Duration(p.pause) * ms})
